@@ -859,6 +859,50 @@ pub fn f6() -> Vec<Case> {
             out.push(case("F6i", format!("fb:input-initial-value:{}", if called { "called" } else { "never-called" }), p, 2, true));
         }
     }
+    // declared initial values of FB inputs / outputs / variables that are NOT plain literals
+    // (negative numbers are a unary minus on a literal, constant expressions): the reference sees
+    // the typed value, the program text carries the untyped spelling. Value (C02) and tag (C03).
+    {
+        let spell: [(Ty, V, &str); 7] = [
+            (Ty::Int, int(Ty::Int, -5), "-5"),
+            (Ty::SInt, int(Ty::SInt, -128), "-128"),
+            (Ty::UInt, int(Ty::UInt, 16), "2 * 8"),
+            (Ty::DInt, int(Ty::DInt, -70000), "-70000"),
+            (Ty::LInt, int(Ty::LInt, 5_000_000_000), "5000000 * 1000"),
+            (Ty::Real, V::R(-1.5), "-1.5"),
+            (Ty::LReal, V::L(-2.5), "-2.5"),
+        ];
+        for section in ["input", "output", "var"] {
+            for (t, v, text) in spell {
+                let d = Decl::init("k", v);
+                let fbk = FbDef {
+                    name: "Dflt".into(),
+                    inputs: if section == "input" { vec![Decl::new("d", Ty::Int), d.clone()] } else { vec![Decl::new("d", Ty::Int)] },
+                    outputs: if section == "output" { vec![d.clone(), Decl::new("seen", t)] } else { vec![Decl::new("seen", t)] },
+                    vars: if section == "var" { vec![d.clone()] } else { vec![] },
+                    body: vec![assign("seen", var("k"))],
+                };
+                let instk = Decl { name: "fa".into(), ty: TyX::Fb("Dflt".into()), init: None };
+                for called in [false, true] {
+                    let mut body = Vec::new();
+                    if called {
+                        body.push(S::FbCall("fa".into(), vec![Arg::In("d".into(), l(2))]));
+                    }
+                    body.push(assign("ra", E::Fld("fa".into(), if section == "var" { "seen".into() } else { "k".into() })));
+                    let mut p = prog(vec![instk.clone(), Decl::new("ra", t)], body);
+                    p.fbs.push(fbk.clone());
+                    let typed = super::ast::print(&p);
+                    let needle = format!(":= {};", v.typed_lit());
+                    if typed.matches(&needle).count() != 1 {
+                        continue; // the printer's spelling is not what this family assumes
+                    }
+                    let mut c = case("F6i", format!("fb:{section}-initial-value-not-a-plain-literal:{}:{}", t.name(), if called { "called" } else { "never-called" }), p, 2, true);
+                    c.raw = Some(typed.replace(&needle, &format!(":= {text};")));
+                    out.push(c);
+                }
+            }
+        }
+    }
     // overflow inside the FB in a later cycle: state at the fault is kept, no frame left
     {
         let body = vec![S::FbCall("fa".into(), vec![Arg::In("d".into(), l(20000)), Arg::In("scale".into(), l(1))])];
